@@ -525,7 +525,10 @@ impl<'a, 'b> G<'a, 'b> {
                 (t, true)
             }
             4 => {
-                let t = self.c.choose(&["NS.C", "NS.a.B", "o.Comp", "this.C", "this.a.b", "NS.KeepAlive", "NS.Fragment"]);
+                let t = self.c.choose(&[
+                    "NS.C", "NS.a.B", "o.Comp", "this.C", "this.a.b", "NS.KeepAlive", "NS.Fragment",
+                    "NS.el", "o.model", "NS.a.myEl",
+                ]);
                 if t.starts_with("this") {
                     self.f.unusual("this-member-tag");
                 }
@@ -542,7 +545,10 @@ impl<'a, 'b> G<'a, 'b> {
     fn element(&mut self, depth: usize) -> String {
         let (tag, comp) = self.tag();
         // any tag text one of the pattern pools could match (conservative for C14)
-        if tag.contains("el") || tag.starts_with("i-") || tag.starts_with("my-") || tag.contains(':') {
+        // (member-expression tags are never custom elements: no pattern governs them)
+        if !tag.contains('.')
+            && (tag.contains("el") || tag.starts_with("i-") || tag.starts_with("my-") || tag.contains(':'))
+        {
             self.f.custom_tag = true;
         }
         let nattrs = self.c.weighted(&[4, 5, 4, 3, 2, 1]);
@@ -970,6 +976,15 @@ impl<'a, 'b> G<'a, 'b> {
             5 => ", { ...o, inheritAttrs: false }".to_string(),
             _ => ", ...xs".to_string(),
         };
+        if has_dc && self.c.chance(1, 4) {
+            // a binding that shadows the vue import: its calls are ordinary code
+            self.f.ctx("shadowed-defineComponent");
+            return match self.c.pick(3) {
+                0 => format!("function mk{name}(defineComponent) {{\n  const {name} = defineComponent({setup}{opts});\n  return {name};\n}}"),
+                1 => format!("const mk{name} = () => {{\n  const defineComponent = f;\n  return defineComponent({setup}{opts});\n}};"),
+                _ => format!("{{\n  function defineComponent(s) {{ return s; }}\n  g(defineComponent({setup}{opts}));\n}}"),
+            };
+        }
         match self.c.pick(4) {
             0 => format!("export const {name} = {callee}({setup}{opts});"),
             1 => format!("export default {callee}({setup}{opts});"),
